@@ -467,3 +467,31 @@ def converter_cases(chk, n):
         cases.append(dict(roots=[("Root", samples)], envspec={"datetime": True, "dkr": [r"k\d"]}, policy=DR.POLICIES[1], fw=fw,
                           layout="flat", kw=kw))
     return cases
+
+
+# ---------------------------------------------------------------------- MC_Lit behaviours
+CFG_LIT = """SPECIFICATION Spec
+CONSTANTS
+  MaxCount = %d
+  Emit = TRUE
+INVARIANT LitRule
+CHECK_DEADLOCK FALSE
+"""
+LIT_POOL = ["alpha", "b", "c c", "d'", 'e"', "f\\", "g,h", "é", "\U0001F600", "j\nk", "l.", "m}", "{n", "o\t", "p:p", "q;", "rr"]
+
+
+def mc_lit_cases(chk, maxcount=17):
+    r = chk.model_check("MC_Lit", CFG_LIT % maxcount, "literal rule at design level: Generate + Render!Ann on every case "
+                        "(count 0..%d, long string first/last/none, int-like company, max in {0,1,2,3,10,15,16,17}, 4 frameworks, 3 sample rotations): LitRule" % maxcount)
+    cases = []
+    for t in tlc.printed_tuples(r["out"], "B"):
+        b = json.loads(t[1])
+        strs = [LIT_POOL[i] for i in range(b["count"])]
+        if b["longAt"]:
+            strs[b["longAt"] - 1] = "x" * 19 + LIT_POOL[b["longAt"] - 1][:1]        # 20 characters
+        samples = [{"a": s, "b": 1} for s in strs] + ([{"a": "1", "b": 2}] if b["company"] else [])
+        k = b["rot"] % max(1, len(samples))
+        samples = samples[k:] + samples[:k]
+        cases.append(dict(roots=[("Root", samples)], envspec={}, policy=DR.POLICIES[1], fw=b["fw"], layout="flat",
+                          kw={"max_literals": b["maxlit"]}))
+    return cases
